@@ -2,10 +2,11 @@
 import Strengths.Driver.Units
 import Strengths.Driver.Grid
 import Strengths.Driver.Trajectory
+import Strengths.Driver.Coarsegrain
 
 namespace Strengths.Driver
 
 def allOps : List (String × Handler) :=
-  unitsOps ++ gridOps ++ trajOps
+  unitsOps ++ gridOps ++ trajOps ++ coarseOps
 
 end Strengths.Driver
